@@ -648,3 +648,69 @@ def _replay_cooler_region(method):
 
 CUSTOM["cooler.api:Cooler.extent"] = _replay_cooler_region("extent")
 CUSTOM["cooler.api:Cooler.offset"] = _replay_cooler_region("offset")
+
+
+def _replay_selector(dim):
+    """a real RangeSelector with recording slicer: the bounds handed to the slicer must select what the same
+    subscript selects on range(n) (the array rule); exceptions as for arrays"""
+    def run(inputs, ghost=None):
+        from cooler.core._selectors import RangeSelector1D, RangeSelector2D
+        g = {k: conv(v) for k, v in (ghost or {}).items()}
+        key = conv(inputs["key"])
+        n = int(g.get("n") or 0)
+        m = int(g.get("m") or 0)
+        calls = []
+
+        def slicer(*a):
+            calls.append(a)
+            return "frame"
+        sel = RangeSelector1D("F", slicer, None, n) if dim == 1 else RangeSelector2D("F", slicer, None, (n, m))
+        out = {"inputs_used": {"key": repr(key), "n": n, "m": m}}
+        raised = None
+        try:
+            sel[key]
+        except Exception as e:
+            raised = e
+        out["raised"] = None if raised is None else f"{type(raised).__name__}: {raised}"
+        viol = []
+        if isinstance(key, (str, list)):
+            out.update(violations=[], violates_contract=False, note="column subscript: not replayed")
+            return out
+        parts = key if isinstance(key, tuple) else (key,)
+        dims = [n, m][:dim]
+        if len(parts) > dim:
+            if not isinstance(raised, IndexError):
+                viol.append(f"too many indices should raise IndexError, got {out['raised']}")
+        else:
+            parts = list(parts) + [slice(None)] * (dim - len(parts))
+            exp, err = [], False
+            for k, size in zip(parts, dims):
+                if isinstance(k, slice):
+                    exp.append(list(range(size))[k])
+                elif -size <= k < size:
+                    exp.append([list(range(size))[k]])
+                elif k >= size:
+                    err = True
+                else:
+                    out.update(violations=[], violates_contract=False, note="scalar below -n: outside the contract")
+                    return out
+            if err:
+                if not isinstance(raised, IndexError):
+                    viol.append(f"out-of-range scalar should raise IndexError, got {out['raised']}")
+            elif raised is not None:
+                viol.append(f"raised {out['raised']}")
+            elif len(calls) != 1:
+                viol.append(f"slicer called {len(calls)} times")
+            else:
+                a = calls[0]
+                got = [list(range(size))[int(a[1 + 2 * i]):int(a[2 + 2 * i])] if a[1 + 2 * i] <= a[2 + 2 * i] else []
+                       for i, size in enumerate(dims)]
+                if got != exp:
+                    viol.append(f"slicer got bounds {a[1:]}, selecting {got}; the subscript selects {exp}")
+        out.update(returned=repr(calls), violations=viol, violates_contract=bool(viol))
+        return out
+    return run
+
+
+CUSTOM["cooler.core._selectors:RangeSelector1D.__getitem__"] = _replay_selector(1)
+CUSTOM["cooler.core._selectors:RangeSelector2D.__getitem__"] = _replay_selector(2)
